@@ -17,14 +17,18 @@ class ColumnControlConstructionTokenTranslator(AbstractTranslator):
             # Mutates matrix, inplace literal cols with digital
             MatrixOfCellIdentifiersTokenTranslator.translate(token.matrix, excel, context)
 
-            if token.matrix.matrix[0].column == token.matrix.matrix[-1].column:
-                return str(token.matrix.matrix[0].column + 1)
+            # the corners may be spelled right to left (C1:A1)
+            first, last = sorted((token.matrix.matrix[0].column, token.matrix.matrix[-1].column))
+            if first == last:
+                return str(first + 1)
 
-            for i in range(token.matrix.matrix[0].column + 1, token.matrix.matrix[-1].column + 2):
+            home = token.in_cell.column
+            for i in range(first + 1, last + 2):
                 # The only way to set multiple cells while parsing single token
                 context.set_cell(token.in_cell, str(i))
                 token.in_cell.column += 1
-            token.in_cell.column = token.matrix.matrix[0].column + 1
-            return context.set_sub_cell(token.in_cell, str(token.in_cell.column))
+            # the formula's own cell stays where it is: it is the first of the filled cells
+            token.in_cell.column = home
+            return str(first + 1)
         else:
             return token.in_cell.column + 1
